@@ -125,6 +125,7 @@ func Reset(devs map[int]int) {
 	S.cur = nil
 	S.Points = nil
 	S.Hashes = nil
+	S.dupN = 0
 	S.devs = devs
 	S.abort = false
 	S.Steps = 0
